@@ -299,6 +299,27 @@ mod c09 {
         range(UnsignedNumType::U16, 16, 3);
     }
 
+    #[kani::proof]
+    #[kani::stub(std::hash::RandomState::new, rs_stub)]
+    #[kani::unwind(4)]
+    fn range_u32() {
+        range(UnsignedNumType::U32, 32, 2);
+    }
+
+    #[kani::proof]
+    #[kani::stub(std::hash::RandomState::new, rs_stub)]
+    #[kani::unwind(4)]
+    fn range_u64() {
+        range(UnsignedNumType::U64, 64, 3);
+    }
+
+    #[kani::proof]
+    #[kani::stub(std::hash::RandomState::new, rs_stub)]
+    #[kani::unwind(4)]
+    fn range_usize() {
+        range(UnsignedNumType::Usize, 32, 1);
+    }
+
     /// a literal of one primitive type is refused for every other primitive type
     #[kani::proof]
     #[kani::stub(std::hash::RandomState::new, rs_stub)]
